@@ -309,12 +309,24 @@ def decode_precond(arms, vals):
         headers.append(["if-unmodified-since", {"http_date": ius}])
     if a["has_ims"]:
         headers.append(["if-modified-since", {"http_date": ims}])
-    now = max(m_secs, ius, ims) + 10
+    # The preconditions only COMPARE dates (second granularity; the modification time also has
+    # nanoseconds). The solver's values are arbitrary 64-bit seconds, mostly far in the future and
+    # far apart, which the real clock cannot host; they are remapped order- and equality-
+    # preserving onto seconds shortly before the replayer's real "now" (no shift requested).
+    import time as _t
+    base = int(_t.time()) - 100000
+    rank = {v: i for i, v in enumerate(sorted({m_secs, ius, ims}))}
+    m2, ius2, ims2 = (base + 10 * rank[v] for v in (m_secs, ius, ims))
+    for h in headers:
+        if h[0] == "if-unmodified-since":
+            h[1] = {"http_date": ius2}
+        if h[0] == "if-modified-since":
+            h[1] = {"http_date": ims2}
     return {
         "kind": "serve", "method": "GET", "headers": headers,
         "entity": {"len": 10, "etag": ETAGS.get(a["etag"]),
-                   "mtime": {"secs": m_secs, "nanos": m_nanos} if has_mtime else None, "headers": [["content-type", "text/plain"]]},
-        "now_secs": now, "polls": 6,
+                   "mtime": {"secs": m2, "nanos": m_nanos} if has_mtime else None, "headers": [["content-type", "text/plain"]]},
+        "polls": 6,
     }
 
 
